@@ -1,0 +1,14 @@
+package verifhook
+
+// Res returns i-th result of a handled Morph call as T, zero T if absent.
+func Res[T any](r []any, i int) (v T) {
+	if i < len(r) {
+		v, _ = r[i].(T)
+	}
+	return v
+}
+
+// ResErr returns i-th result of a handled Morph call as error, nil if absent.
+func ResErr(r []any, i int) error {
+	return Res[error](r, i)
+}
